@@ -115,6 +115,11 @@ def _rexpr(prog, fn, e, inners):
         return "k" if fn.get("pdef") is not None else "0"
     if t == "pkw":
         return "kw" if fn.get("kwdef") is not None else "0"
+    if t == "pg":
+        # the parameter whose default is a module-level list / dict (the very object the variable names)
+        if not fn.get("gdef"):
+            return "0"
+        return {"list": "sum(g)", "dict": "g[\"k\"]"}[find(prog, fn["gdef"])["vtype"]]
     if t == "pfn":
         return "fn(x - 1)" if fn.get("fdef") else "0"
     if t == "glob":
@@ -242,6 +247,8 @@ def render_def(prog, d):
     params = "x"
     if d.get("pdef") is not None:
         params += ", k=%s" % _lit(d["pdef"])
+    if d.get("gdef"):
+        params += ", g=%s" % _ref(prog, d["mod"], d["gdef"])
     if d.get("fdef"):
         params += ", fn=%s" % _ref(prog, d["mod"], d["fdef"])
     if d.get("kwdef") is not None:
@@ -265,7 +272,7 @@ def fix_order(prog, defs):
         moved = False
         names = [d["name"] for d in defs]
         for i, d in enumerate(defs):
-            deps = ([d.get("fdef")] if d.get("fdef") else []) + list(d.get("declared") or []) if d["k"] == "fn" else \
+            deps = ([d.get("fdef")] if d.get("fdef") else []) + ([d.get("gdef")] if d.get("gdef") else []) + list(d.get("declared") or []) if d["k"] == "fn" else \
                 ([d.get("target")] if d["k"] in ("query", "mut") else [])
             late = [dep for dep in deps if dep in names and names.index(dep) > i]
             if late:
@@ -314,6 +321,8 @@ def edges(prog, name, include_hidden=True):
     if d.get("fdef"):
         cs.append(d["fdef"])
     cs += list(d.get("declared") or [])
+    if d.get("gdef"):
+        vs.append(d["gdef"])
     for e in exprs_of(d):
         if e["e"] == "call" or (e["e"] == "hidden" and include_hidden):
             cs.append(e["f"])
@@ -550,7 +559,7 @@ def apply_edit(prog, edit, tag):
 # ------------------------------------------------------------------------------------------
 
 def program_strategy(max_fns=6, two_modules=True, allow_hidden=True, allow_explicit=True, allow_cluster=True,
-                     str_sets=True, allow_hidden_plain=False, allow_alias=True, explicit_f0=False, value_heavy=False, allow_fdef=False, allow_dictset=False, allow_init=False, allow_query=False, allow_tuplist=False, allow_declared=False, helper_heavy=False, allow_mut=False, allow_twins=False, allow_keyclash=False, allow_rename=False, allow_mixset=False, allow_nested_refs=False):
+                     str_sets=True, allow_hidden_plain=False, allow_alias=True, explicit_f0=False, value_heavy=False, allow_fdef=False, allow_dictset=False, allow_init=False, allow_query=False, allow_tuplist=False, allow_declared=False, helper_heavy=False, allow_mut=False, allow_twins=False, allow_keyclash=False, allow_rename=False, allow_mixset=False, allow_nested_refs=False, allow_gdef=False):
     from hypothesis import strategies as st
 
     small = st.integers(0, 9)
@@ -648,6 +657,11 @@ def program_strategy(max_fns=6, two_modules=True, allow_hidden=True, allow_expli
                 d["cluster"] = "c"
             d["base"] = simple(has_k, has_kw, 1)
             body = simple(has_k, has_kw)
+            gvars = [v_ for v_ in defs if v_["k"] == "var" and v_["vtype"] in ("list", "dict") and v_["mod"] == fmods[n]]
+            if allow_gdef and gvars and draw(st.integers(0, 2)) == 0:
+                # a parameter whose default is a module-level list / dict of the same module (evaluated when the function is defined)
+                d["gdef"] = draw(st.sampled_from(gvars))["name"]
+                body = {"e": "add", "a": body, "b": {"e": "pg"}}
             if helper_heavy:
                 # the root calls both plain helpers; the helpers' results depend on their default parameter values
                 if memento:
@@ -743,11 +757,17 @@ def program_strategy(max_fns=6, two_modules=True, allow_hidden=True, allow_expli
             for d_ in out["defs"]:
                 if d_["k"] != "fn" or d_.get("lam"):
                     continue
+                # (a local named like a dotted reference's last component must not hide a module-level name the function uses bare)
+                own_names = {rn(o_) for o_ in out["defs"] if o_["mod"] == d_["mod"] and o_["k"] in ("var", "fn", "alias", "wrapper")}
                 for e_ in exprs_of(d_):
                     if e_["e"] == "glob" and draw(st.integers(0, 2)) == 0:
                         e_["form"] = draw(st.sampled_from(["lambda", "inner", "compr", "shadowed", "localnamed", "localnamed"]))
+                        if e_["form"] == "localnamed" and rn(find(out, e_["n"])) in own_names:
+                            e_["form"] = "lambda"
                     elif e_["e"] == "call" and not e_.get("form") and draw(st.integers(0, 2)) == 0:
                         e_["form"] = draw(st.sampled_from(["lambda", "inner", "genexp", "localnamed", "localnamed"]))
+                        if e_["form"] == "localnamed" and rn(find(out, e_["f"])) in own_names:
+                            e_["form"] = "lambda"
         if allow_rename and draw(st.integers(0, 2)) == 0:
             # unusual but legal names: a variable / helper / memoized callee called like a builtin, or with a very long name
             cands = [d["name"] for d in out["defs"] if d["k"] in ("var", "fn") and d["name"] != "f0" and not d.get("rname")
@@ -810,6 +830,8 @@ def features(prog):
         f.add("tuple-holding-list")
     if any(d["k"] == "var" and d["vtype"] == "mixset" for d in prog["defs"]):
         f.add("mixed-type-set")
+    if any(d.get("gdef") for d in fns(prog)):
+        f.add("variable-as-parameter-default")
     if any(e.get("form") in ("lambda", "inner", "compr", "shadowed", "genexp", "localnamed") for d in fns(prog) for e in exprs_of(d) if e["e"] in ("glob", "call")):
         f.add("reference-from-nested-scope")
     if any(d["k"] in ("alias", "wrapper") for d in prog["defs"]):
